@@ -2,6 +2,8 @@ package props
 
 import (
 	"fmt"
+	"os"
+	"strconv"
 
 	"github.com/taurusgroup/multi-party-sig/pkg/ecdsa"
 	"github.com/taurusgroup/multi-party-sig/pkg/party"
@@ -14,6 +16,12 @@ var cmpEnabled = true
 func cmpRate(c *fw.Ctx, perMille int) int {
 	if !cmpEnabled {
 		return 0
+	}
+	// VERIF_CMP_PERMILLE overrides the share of CMP worlds (debugging / targeted campaigns)
+	if v := os.Getenv("VERIF_CMP_PERMILLE"); v != "" {
+		if n, err := strconv.Atoi(v); err == nil {
+			return n
+		}
 	}
 	return perMille
 }
